@@ -220,6 +220,9 @@ pub enum Behaviour {
     Slow(u64),
     /// answer the startup packet with a FATAL error
     RejectStartup,
+    /// every statement fails with an ERROR (a server whose replies must never be mistaken for
+    /// another server's)
+    Errors,
 }
 
 pub struct HostRt {
